@@ -135,6 +135,13 @@ def run(chk):
         ok = is_self_attr(oc, "_create_client")
         r4.expect(ok, "obj_creator is self._create_client", "PooledClient.__init__:obj_creator", "obj_creator `%s` is not self._create_client" % (node_src(oc) if oc is not None else None), fn=init, node=n)
 
+    # ---------------- R6 = C09.R8: the lock rules make each method's bookkeeping atomic; that the books stay right under
+    # every *order* of those atomic steps is decided on sequential histories
+    from . import poolhist
+
+    r6 = chk.rule("C08.R6", "sequential histories of the pool keep the books (as C09.R8): never listed twice, never more than max_size, closed exactly once, never handed to two holders")
+    poolhist.pool_histories(prog, r6, chk.tier)
+
     # ---------------- R5 bracket and non-escape
     r5 = chk.rule("C08.R5", "every PooledClient method obtains its client through `with client_pool.get_and_release(...) as client` and the client does not escape")
     n_br = 0
